@@ -63,7 +63,10 @@ func (alloc *allocateAction) Execute(ssn *framework.Session) {
 		if ok, pipelined := attemptToAllocateJob(ssn, stmt, job); ok {
 			metrics.IncPodgroupScheduledByAction()
 			err := stmt.Commit()
-			if err == nil && !pipelined && !alreadyAllocated {
+			// A commit that failed part-way still started the job if tasks were bound before the failing one:
+			// they stay bound, and the job is "already allocated" in every later cycle, so this is the only
+			// chance to record its start (the minruntime plugin protects a job from its start timestamp).
+			if !pipelined && !alreadyAllocated && (err == nil || job.GetNumAllocatedTasks() > 0) {
 				setLastStartTimestamp(job)
 			}
 			if err == nil && podgroup_info.HasTasksToAllocate(job, true) {
